@@ -14,6 +14,15 @@ RULE = ('packages with many hyperlinks (resolvable, anchor-only, both, empty id,
 LINKRUN = re.compile(r'^<a href="([^"]*)">(.*)</a>$', re.S)
 
 
+def inside_anchor(run, tok):
+    """is the token «tok» inside an <a href=…>…</a> span of this run string?"""
+    depth = 0; pos = run.find(f'«{tok}»')
+    for m in re.finditer(r'<a href="[^"]*">|</a>', run):
+        if m.start() > pos: break
+        depth += 1 if m.group(0).startswith('<a') else -1
+    return depth > 0
+
+
 def link_runs(runs_view):
     return [r for r in flat(runs_view, 5) if r.startswith('<a href=') or r.startswith('----footnote') or r.startswith('----endnote')]
 
@@ -69,7 +78,8 @@ def one(ctx, data, meta=None, htmls=(False, True)):
                         if len(pos) != len(toks) or pos != list(range(pos[0], pos[0] + len(toks))):
                             ctx.fail('link text is not the visible text of the link in order', c, {'run': run}); good = False
                 elif not any(src.ptag(x) == 'w:hyperlink' for x in h.iterdescendants()):
-                    if any(out_pars[p][r].startswith('<a href=') for p, r in where):
+                    # (adjacent links without a relationship id are merged, so the run may also hold a neighbour's text and links)
+                    if any(inside_anchor(out_pars[p][r], t) for t in toks for p, r in [tokpar[t]]):
                         # tokens inside an <a href> run: only legitimate when an enclosing/adjacent resolvable link rendered them
                         ctx.fail('a hyperlink without a resolvable target is rendered with an href', c, {'run': run}); good = False
             # note references and labels
